@@ -163,9 +163,9 @@ def joinStep (pos depth : Nat) : Res Step :=
 /-! ### the guard of "an approved wrap applies" (Props/C12.lean `findWrapping_wrap_applies`) -/
 
 /-- what `find_wrapping` does not look at: it walks the innermost wrapper's automaton over the *types* of the
-    nodes of the range (`find_wrapping_inside`), the wrap itself asks `can_replace` of that wrapper
-    (`Slice.insert_at` → `insert_into`), which also wants the wrapper to allow the *marks* of every node of the
-    range.  (First conjunct: no wrapper type is a leaf type.  In a compiled schema a leaf type has no content
+    nodes of the range (`find_wrapping_inside`), the wrap itself asks that wrapper whether the content it is
+    given is valid (`Slice.insert_at` → `insert_into` → `valid_content` of the built content), which also wants the
+    wrapper to allow the *marks* of every node of the range.  (First conjunct: no wrapper type is a leaf type.  In a compiled schema a leaf type has no content
     edges, so `find_wrapping` never approves one; the model's schema tables do not enforce that.) -/
 def wrapGuardR (S : Schema) (f t : RPos) (depth : Nat) (wrappers : List (TypeId × Attrs)) : Bool :=
   wrappers.all (fun w => !(S.nodeType w.1).isLeaf) &&
